@@ -663,3 +663,21 @@ func (r *Run) declAnywhere(fn *types.Func) (*packages.Package, *ast.FuncDecl) {
 	}
 	return p, fd
 }
+
+// findFuncAnyRecv finds a declaration by name whether it is a plain function or a method of some
+// type of the package (a helper that moved onto a small struct keeps its role). Nil when absent or ambiguous.
+func findFuncAnyRecv(p *packages.Package, name string) *ast.FuncDecl {
+	if p == nil {
+		return nil
+	}
+	var found *ast.FuncDecl
+	for _, fd := range funcDecls(p) {
+		if fd.Name.Name == name {
+			if found != nil {
+				return nil
+			}
+			found = fd
+		}
+	}
+	return found
+}
